@@ -902,6 +902,20 @@ func fsDumpCatalog(c *lungo.Catalog) string {
 	return sb.String()
 }
 
+// fsDumpFull: fsDumpCatalog plus the change log (local.oplog), event by event
+func fsDumpFull(c *lungo.Catalog) string {
+	var sb strings.Builder
+	sb.WriteString(fsDumpCatalog(c))
+	sb.WriteString("oplog{")
+	if o := c.Namespaces[lungo.Oplog]; o != nil {
+		for _, d := range o.Documents.List {
+			sb.WriteString(enc(*d))
+		}
+	}
+	sb.WriteString("}")
+	return sb.String()
+}
+
 func oracleFailingStore(r *rng, n int, st *oracleStats) []oracleFailure {
 	st.Rule = "histories of 4–10 writes (insert / update / delete / insert-many) on an engine created with lungo.CreateEngine(Options{Store: wrapper}); the wrapper around a real FileStore fails a random subset of Store calls before writing or after writing; after a failed commit: error reported, Engine.Catalog() is the same pointer with the same contents, a probe write within 2 s succeeds (token released, txn cleared); after the last successful commit the file reloads to the visible state; fail-after is the one place where visible (old) and durable (new) differ — counted as divergence:visible-old-durable-new; a history is non-trivial when at least one Store call failed"
 	var fails []oracleFailure
@@ -920,7 +934,7 @@ func oracleFailingStore(r *rng, n int, st *oracleStats) []oracleFailure {
 		os.Mkdir(dir, 0777)
 		fstore := lungo.NewFileStore(fsStorePath(dir), 0666)
 		ws := &flakyStore{inner: fstore}
-		if it%60 == 7 {
+		if it%40 == 7 {
 			// retention scenario: a commit that only creates an index / a collection trims the
 			// change log (events older than the current second, tiny size limits) and then fails
 			// in Store: the visible catalog, including local.oplog, must stay as it was
@@ -934,7 +948,7 @@ func oracleFailingStore(r *rng, n int, st *oracleStats) []oracleFailure {
 				}
 				time.Sleep(1100 * time.Millisecond)
 				before := engine.Catalog()
-				beforeDump := fsDumpCatalog(before)
+				beforeDump := fsDumpFull(before)
 				ws.mode = 1 + r.intn(2)
 				var opErr error
 				if r.chance(1, 2) {
@@ -946,10 +960,21 @@ func oracleFailingStore(r *rng, n int, st *oracleStats) []oracleFailure {
 				if opErr == nil {
 					fail("store error not reported by the commit", detail)
 				}
-				if fsDumpCatalog(engine.Catalog()) != beforeDump {
-					fail("contents of Engine.Catalog() changed after a failed commit", detail)
+				if fsDumpFull(engine.Catalog()) != beforeDump {
+					fail("contents of Engine.Catalog() (incl. the change log) changed after a failed commit", detail)
 				}
+				// a successful commit that trims: the file holds exactly the visible state, change log included
 				ws.mode = 0
+				if _, err := coll.InsertOne(context.Background(), bson.D{{Key: "_id", Value: "after"}}); err == nil {
+					if reloaded, err := fstore.Load(); err != nil {
+						fail("store file unloadable after a trimming commit", detail)
+					} else if fsDumpFull(reloaded) != fsDumpFull(engine.Catalog()) {
+						fail("persisted state (incl. the change log) differs from the visible state after a commit that trimmed the change log", detail)
+					}
+					if o := engine.Catalog().Namespaces[lungo.Oplog]; o != nil && len(o.Documents.List) >= 6 {
+						st.Dist["retention-scenario-did-not-trim"]++
+					}
+				}
 				engine.Close()
 			}
 			continue
@@ -975,7 +1000,7 @@ func oracleFailingStore(r *rng, n int, st *oracleStats) []oracleFailure {
 			}
 			ws.mode = mode
 			before := engine.Catalog()
-			beforeDump := fsDumpCatalog(before)
+			beforeDump := fsDumpFull(before)
 			calls := ws.calls
 			ctx, cancel := context.WithTimeout(context.Background(), 2*time.Second)
 			id := int32(r.intn(6))
@@ -1015,12 +1040,12 @@ func oracleFailingStore(r *rng, n int, st *oracleStats) []oracleFailure {
 				}
 				if engine.Catalog() != before {
 					fail("Engine.Catalog() replaced after a failed commit", detail)
-				} else if fsDumpCatalog(engine.Catalog()) != beforeDump {
+				} else if fsDumpFull(engine.Catalog()) != beforeDump {
 					fail("contents of Engine.Catalog() changed after a failed commit", detail)
 				}
 				if mode == 2 {
 					// the file now holds the state being committed while the old one stays visible
-					if reloaded, err := fstore.Load(); err == nil && fsDumpCatalog(reloaded) != beforeDump {
+					if reloaded, err := fstore.Load(); err == nil && fsDumpFull(reloaded) != beforeDump {
 						st.Dist["divergence:visible-old-durable-new"]++
 					}
 				}
@@ -1042,7 +1067,7 @@ func oracleFailingStore(r *rng, n int, st *oracleStats) []oracleFailure {
 				reloaded, err := fstore.Load()
 				if err != nil {
 					fail("store file unloadable after a commit that followed a failed one", detail)
-				} else if fsDumpCatalog(reloaded) != fsDumpCatalog(engine.Catalog()) {
+				} else if fsDumpFull(reloaded) != fsDumpFull(engine.Catalog()) {
 					fail("persisted state differs from the visible state after a successful commit", detail)
 				}
 			} else if stored && opErr == nil {
@@ -1051,7 +1076,7 @@ func oracleFailingStore(r *rng, n int, st *oracleStats) []oracleFailure {
 					reloaded, err := fstore.Load()
 					if err != nil {
 						fail("store file unloadable after a successful commit", detail)
-					} else if fsDumpCatalog(reloaded) != fsDumpCatalog(engine.Catalog()) {
+					} else if fsDumpFull(reloaded) != fsDumpFull(engine.Catalog()) {
 						fail("persisted state differs from the visible state after a successful commit", detail)
 					}
 				}
